@@ -415,7 +415,7 @@ func (x *Executor) havocAll(st *State) {
 
 func (x *Executor) execInvoke(fr *Frame, st *State, reach string, call *ssa.CallCommon, recv Val, args []Val, resTy types.Type) Val {
 	u := x.u
-	it := call.Value.Type()
+	it := types.Unalias(call.Value.Type())
 	mname := call.Method.Name()
 	if fr.con != nil && len(fr.con.AtCall) > 0 {
 		iname := ""
